@@ -4,6 +4,7 @@ import (
 	"database/sql"
 	"database/sql/driver"
 	"fmt"
+	"reflect"
 	"sort"
 	"strconv"
 	"strings"
@@ -94,6 +95,8 @@ type rawR struct {
 	args  []interface{}
 	named []sql.NamedArg
 	feats map[string]bool
+	// ModeNamed: name style
+	longNames, structArgs bool
 }
 
 var (
@@ -169,6 +172,12 @@ func (r *rawR) ph(v interface{}, eq func(interface{}) bool) string {
 			}
 		}
 		name := "v" + strconv.Itoa(len(r.named)+1)
+		if r.longNames {
+			// longer than the 10 byte buffer NamedExpr starts a name with
+			name = "Value_number_" + strconv.Itoa(len(r.named)+1)
+		} else if r.structArgs {
+			name = "V" + strconv.Itoa(len(r.named)+1) // an exported field name
+		}
 		r.named = append(r.named, sql.Named(name, v))
 		return "@" + name
 	}
@@ -180,8 +189,25 @@ func (r *rawR) scalar(v Val) string {
 		return v.Lit()
 	}
 	var gv interface{} = v.Go()
-	if !v.Str && r.pct(25) {
+	switch k := r.n(20); {
+	case !v.Str && k < 5:
 		gv = int64(v.I)
+	case k == 5: // pointer to the value
+		if v.Str {
+			x := v.S
+			gv = &x
+		} else {
+			x := v.I
+			gv = &x
+		}
+		r.feat("value:pointer")
+	case k == 6: // valid sql.Null* wrapper (a driver.Valuer)
+		if v.Str {
+			gv = sql.NullString{String: v.S, Valid: true}
+		} else {
+			gv = sql.NullInt64{Int64: int64(v.I), Valid: true}
+		}
+		r.feat("value:sql-null-valuer")
 	}
 	return r.ph(gv, func(o interface{}) bool {
 		switch x := o.(type) {
@@ -192,7 +218,7 @@ func (r *rawR) scalar(v Val) string {
 		case string:
 			return v.Str && x == v.S
 		}
-		return false
+		return false // wrapped values get a name of their own
 	})
 }
 
@@ -354,6 +380,14 @@ func RenderRaw(rt *rapid.T, n *Node, mode RawMode, wild bool, qual string) Raw {
 		mode = ModeQ // a template without values cannot be a named template
 	}
 	r := &rawR{g: newG(rt), mode: mode, wild: wild, qual: qual, feats: map[string]bool{}}
+	if mode == ModeNamed {
+		switch r.n(6) {
+		case 0:
+			r.longNames = true
+		case 1:
+			r.structArgs = true
+		}
+	}
 	s := r.expr(n, KAtom)
 	if wild && r.pct(10) {
 		s = r.pick([]string{" ", "\n", "\t"}) + s
@@ -368,7 +402,23 @@ func RenderRaw(rt *rapid.T, n *Node, mode RawMode, wild bool, qual string) Raw {
 	case ModeQ:
 		out.Args = r.args
 	case ModeNamed:
-		if r.pct(50) {
+		if r.structArgs {
+			// a struct whose exported fields carry the values: @V1 reads field V1
+			fields := make([]reflect.StructField, len(r.named))
+			for i, na := range r.named {
+				fields[i] = reflect.StructField{Name: na.Name, Type: reflect.TypeOf(na.Value)}
+			}
+			sv := reflect.New(reflect.StructOf(fields)).Elem()
+			for i, na := range r.named {
+				sv.Field(i).Set(reflect.ValueOf(na.Value))
+			}
+			if r.pct(50) {
+				out.Args = []interface{}{sv.Interface()}
+			} else {
+				out.Args = []interface{}{sv.Addr().Interface()}
+			}
+			r.feat("named:struct")
+		} else if r.pct(50) {
 			m := map[string]interface{}{}
 			for _, na := range r.named {
 				m[na.Name] = na.Value
@@ -454,6 +504,10 @@ func (r *clauseR) expr(n *Node, top bool) (clause.Expression, string) {
 			return clause.Lt{Column: c, Value: n.V.Go()}, "Lt{" + cd + "," + n.V.String() + "}"
 		case OpGt:
 			return clause.Gt{Column: c, Value: n.V.Go()}, "Gt{" + cd + "," + n.V.String() + "}"
+		case OpGe:
+			return clause.Gte{Column: c, Value: n.V.Go()}, "Gte{" + cd + "," + n.V.String() + "}"
+		case OpLe:
+			return clause.Lte{Column: c, Value: n.V.Go()}, "Lte{" + cd + "," + n.V.String() + "}"
 		case OpLike:
 			return clause.Like{Column: c, Value: n.V.Go()}, "Like{" + cd + "," + n.V.String() + "}"
 		case OpIsNull:
@@ -564,10 +618,46 @@ func goString(a interface{}) string {
 		return fmt.Sprintf("[]int%v", v)
 	case []string:
 		return fmt.Sprintf("[]string%q", v)
+	case sql.NullInt64:
+		return fmt.Sprintf("NullInt64(%d)", v.Int64)
+	case sql.NullString:
+		return "NullString(" + strconv.Quote(v.String) + ")"
+	case map[string]string:
+		keys := make([]string, 0, len(v))
+		for k := range v {
+			keys = append(keys, k)
+		}
+		sort.Strings(keys)
+		parts := make([]string, len(keys))
+		for i, k := range keys {
+			parts[i] = k + ":" + strconv.Quote(v[k])
+		}
+		return "map[string]string{" + strings.Join(parts, ", ") + "}"
+	case map[interface{}]interface{}:
+		parts := make([]string, 0, len(v))
+		for k, x := range v {
+			parts = append(parts, fmt.Sprint(k)+":"+goString(x))
+		}
+		sort.Strings(parts)
+		return "map[any]any{" + strings.Join(parts, ", ") + "}"
 	case StrList:
 		return fmt.Sprintf("StrList%q", []string(v))
 	case IntSum:
 		return fmt.Sprintf("IntSum%v", []int(v))
+	}
+	// anonymous argument structs of @name templates (and pointers to them):
+	// print the fields, never an address
+	rv := reflect.ValueOf(a)
+	prefix := ""
+	for rv.Kind() == reflect.Ptr && !rv.IsNil() {
+		rv, prefix = rv.Elem(), prefix+"&"
+	}
+	if rv.Kind() == reflect.Struct && rv.Type().Name() == "" {
+		parts := make([]string, rv.NumField())
+		for i := range parts {
+			parts[i] = rv.Type().Field(i).Name + ":" + goString(rv.Field(i).Interface())
+		}
+		return prefix + "struct{" + strings.Join(parts, ", ") + "}"
 	}
 	return fmt.Sprintf("%T(%v)", a, a)
 }
